@@ -11,8 +11,9 @@ AFI = F(CFG, 'ask_fee_info'); BFI = F(CFG, 'bid_fee_info')
 
 def find_lt0(p, dom, x, val):
     """is there a fact [0 < y] = val with y == x in the domain?"""
-    for f, _, _ in p.facts:
-        if f[0] == 'val' and f[2] is val and f[1][0] == 'lt' and f[1][1] == I(0) and dom.eq(f[1][2], x): return True
+    want = 'pos' if val else 'zero'
+    for y, sg in p.signs():
+        if sg == want and isinstance(y, tuple) and numericish(y) and dom.eq(y, x): return True
     return False
 
 def settle_spec(p, dom, bs):
@@ -34,9 +35,10 @@ def settle_spec(p, dom, bs):
     ask_fee = None
     if afi == 'Some':
         pos = zero = False
-        for f, _, _ in p.facts:
-            if f[0] == 'nval' and 0 in f[2] and dom.eq(f[1], A): pos = True
-            if f[0] == 'val' and f[2] == 0 and f[1][0] in ('round', 'mul', 'sub', 'add') and dom.eq(f[1], A): zero = True
+        for y, sg in p.signs():
+            if isinstance(y, tuple) and numericish(y) and dom.eq(y, A):
+                if sg == 'pos': pos = True
+                else: zero = True
         if pos: ask_fee = A
         elif not zero: return None, 'ask fee configured but no zero / non-zero branch on round0(rate * gross) found'
     elif afi != 'None': return None, 'ask_fee_info presence not established'
